@@ -150,9 +150,9 @@ class Counters(Monitor):
         if got != want:
             world.violate(P, P + ".nfev_exact", "%s: nfev=%d but the rhs peer completed %d calls since construction/reset" % (where, got, want))
         nj = int(system.njev)
-        if nj not in (world.jacreq_returned, world.jacreq_returned - world.jacreq_at_reset):
-            world.violate(P, P + ".njev_exact", "%s: njev=%d but %d Jacobian requests returned (%d since reset)"
-                          % (where, nj, world.jacreq_returned, world.jacreq_returned - world.jacreq_at_reset))
+        if nj not in (world.jacreq_returned - world.jacreq_at_build, world.jacreq_returned - world.jacreq_at_reset):
+            world.violate(P, P + ".njev_exact", "%s: njev=%d but %d Jacobian requests returned since construction (%d since reset)"
+                          % (where, nj, world.jacreq_returned - world.jacreq_at_build, world.jacreq_returned - world.jacreq_at_reset))
 
     def on_step(self, world, system):
         self._check_counts(world, system, "in loop")
@@ -517,6 +517,17 @@ class Dense(Monitor):
         integ = world.system.integrator
         rtol = _f(getattr(integ, "rtol", 0.0))
         atol = _f(getattr(integ, "atol", 0.0))
+        # access pattern: the order in which a user touches the dense output after a call is part of the history (seeded per
+        # scenario and op): scalar queries first / an array query first / the range attributes first
+        pattern = (int(world.scn.get("seed", 0)) * 31 + i) % 3
+        first_arr = None
+        if pattern == 1:
+            world.probe("dense_first_access_array")
+            first_arr = sol(np.asarray(t, dtype=dtype))
+        elif pattern == 2:
+            world.probe("dense_first_access_range")
+            # read only: the attributes are the extremes of the piece END times (the property says nothing about them)
+            getattr(sol, "t_min", None), getattr(sol, "t_max", None)
         queries = []
         for j in range(n - 1):
             a, b = t[j], t[j + 1]
@@ -588,6 +599,10 @@ class Dense(Monitor):
                 if not bitwise_equal(np.asarray(got[idx]), np.asarray(q[1])):
                     world.violate(P, P + ".array_query", "array query at %r differs from the scalar query" % (_f(q[0]),))
                     break
+        if first_arr is not None:
+            again = sol(np.asarray(t, dtype=dtype))
+            if not bitwise_equal(np.asarray(again), np.asarray(first_arr)):
+                world.violate(P, P + ".array_query", "the array query over the recorded times gives different answers before and after the scalar queries")
         # (e) accuracy between grid points against the closed form
         if self.accuracy and world.problem.has_exact and not world.fired and all(s["exc"] is None for s in world.snaps) and integ is not None:
             adaptive = bool(getattr(integ, "is_adaptive", False))
@@ -747,31 +762,49 @@ class FixedStep(Monitor):
 
     def before_op(self, world, i, op, pre):
         self.ic0 = len(world.icalls)
-        self.dt_before = np.array(world.system.dt, copy=True)
+        if not hasattr(self, "requested"):
+            # the step the USER requested: the constructor's dt, until the user assigns another one.  It is tracked here, not read
+            # back from the system before each call (a library that lets a clamped final step leak into dt would vouch for itself)
+            self.requested0 = np.abs(np.array(world.system.dt, copy=True))
+            self.requested = self.requested0
+            self.allowed_extra = []
         self.start = pre["t"][-1]
 
     def after_op(self, world, i, op, pre, snap):
+        if snap["kind"] == "reset":
+            self.requested = self.requested0
+            self.allowed_extra = []
+            return
+        if snap["kind"] == "set":
+            if op.get("attr") == "dt":
+                self.requested = np.abs(np.array(world.system.dt, copy=True))
+                self.allowed_extra = []
+            return
         if snap["kind"] != "integrate":
             return
         P = self.prop
         integ = world.system.integrator
         if getattr(integ, "is_adaptive", False) or world.scn["system"]["method"].startswith("Rich:"):
+            self.requested = None       # the controller owns dt from here on
             return
         if op.get("callbacks") and "plan" in op["callbacks"]:
-            return      # user intervention
+            self.requested = None       # user intervention
+            return
+        if self.requested is None:
+            return
         target = op_target(world, op)
         dtype = snap["t"].dtype
         eps = eps_of(dtype)
-        # the step the user requested for this call: |dt| as it stood before the call, halved-span rule applied by the library
-        # when dt exceeds the span (then the request is "dt <= span" violated: not in this property's quantifier)
-        req = abs(_f(self.dt_before))
+        # when dt exceeds the span the library shortens it (the request "dt <= span" is violated: not in this property's quantifier)
+        req = abs(_f(self.requested))
         span = abs(target - _f(self.start)) if np.isfinite(target) else np.inf
         if req > span:
+            self.requested = None
             return
         calls = [c for c in world.icalls[self.ic0:] if c["depth"] == 0 and c["nested"] == 1]
         direction = sgn(target - _f(self.start))
-        cur = np.abs(np.asarray(self.dt_before))       # the requested magnitude
-        allowed = [cur]                                  # plus every shortened step accepted after failed solves (the library may keep it)
+        cur = np.abs(np.asarray(self.requested))       # the requested magnitude
+        allowed = [cur] + self.allowed_extra             # plus every shortened step accepted after failed solves (the library may keep it)
         for n_, c in enumerate(calls):
             atts = c["attempts"]
             if not atts:
@@ -821,6 +854,7 @@ class FixedStep(Monitor):
                 # the step in force for the next call: unchanged, or the shortened step after failed solves
                 if len(atts) > 1:
                     allowed.append(np.abs(c["dTime"]))
+                    self.allowed_extra.append(np.abs(c["dTime"]))
                     world.probe("implicit_step_shortened")
         # recorded grid: all steps but the last equal the step in force
         t = snap["t"]
